@@ -357,6 +357,54 @@ Fixpoint nodupb (l : list key) : bool :=
 Definition wf_names (W : wsdl) : bool :=
   forallb (fun t => nodupb (ordering (all_items W t))) (w_types W).
 
+(* every type reference of a declaration names a declared type *)
+Definition tref_ok (W : wsdl) (ty : tref) : bool :=
+  match ty with
+  | TBuiltin => true
+  | TNamed ns n => is_type W (ns, n)
+  end.
+
+Definition wf_refs (W : wsdl) : bool :=
+  forallb (fun e => tref_ok W (snd e)) (w_elems W) &&
+  forallb (fun t => forallb (fun it => match it with
+                                       | FE _ _ d _ _ => tref_ok W (e_type d)
+                                       | _ => true
+                                       end) (all_items W t)) (w_types W).
+
+(* the spellings of the property text: names are NCNames without '.', a URI has
+   no '}' and no line break, an @attribute can only end a path *)
+Definition name_char (c : N) : bool :=
+  negb (N.eqb c ch_dot || N.eqb c ch_colon || N.eqb c ch_lbrace || N.eqb c ch_rbrace ||
+        N.eqb c ch_nl || N.eqb c ch_at).
+
+Definition name_ok (s : str) : bool :=
+  match s with [] => false | _ => forallb name_char s end.
+
+Definition uri_char (c : N) : bool := negb (N.eqb c ch_rbrace || N.eqb c ch_nl).
+
+Definition uri_ok (s : str) : bool :=
+  match s with [] => false | _ => forallb uri_char s end.
+
+Definition root_ok (r : root_form) : bool :=
+  match r with
+  | RPlain n => name_ok n
+  | RPrefixed p n => name_ok p && name_ok n
+  | RBraced u n => uri_ok u && name_ok n
+  end.
+
+Definition member_ok (m : member) : bool :=
+  match m_prefix m with Some _ => false | None => name_ok (m_name m) end.
+
+Fixpoint attrs_last (ms : list member) : bool :=
+  match ms with
+  | [] => true
+  | [m] => true
+  | m :: r => negb (m_attr m) && attrs_last r
+  end.
+
+Definition wf_spelling (sp : spelling) : bool :=
+  root_ok (sp_root sp) && forallb member_ok (sp_members sp) && attrs_last (sp_members sp).
+
 (* ------------------------------------------------------------------ *)
 (* what the harness evaluates                                          *)
 (* ------------------------------------------------------------------ *)
